@@ -41,10 +41,23 @@ def session(rng, nnodes, nmsgs):
         elif rng.random() < 0.3:
             relay[i] = True
             ops.append(f"{names[i]} set multicast_relay T")
+    kinds = {i: ops[i].split()[2] for i in range(len(tree))}
     for _ in range(nmsgs):
         s = rng.choice([i for i in range(len(tree)) if allow[i] and not relay[i]] or [0])
         if relay[s] or not allow[s]:
             continue
+        if rng.random() < 0.3:
+            # unicast traffic BEFORE the multicast: a routed message of an acknowledged type to an absent node times out
+            # waiting for its NETWORK_ACK (or is answered); the writer must be back to "multicasts are not acknowledged"
+            # when the multicast arrives (seeded change C14-s22 left auto-ack on for pipe 0 after the time-out)
+            writers = [i for i in range(1, len(tree)) if kinds[i] == "network"]
+            absent = [d for d in range(1, 6) if (d,) not in tree]
+            if writers:
+                w = rng.choice(writers)
+                dst = rng.choice(absent + [gen_net.addr_of(rng.choice(tree))]) if absent else gen_net.addr_of(rng.choice(tree))
+                ops.append(f"{names[w]} write {dst} {rng.choice([65, 70, 127, 1])} {rbytes(rng, rng.choice([1, 24, 30]))} 56")
+                for i in range(len(tree)):
+                    ops += [f"{names[i]} update", f"{names[i]} read", f"{names[i]} read"]
         lvl = rng.choice(["N", 0, 1, 2, 3, 4])
         n = rng.choice([0, 1, 10, 24, 24, 25, 60, 144])
         ops.append(f"{names[s]} multicast {rbytes(rng, n)} {rng.randint(0, 127)} {lvl}")
@@ -81,6 +94,7 @@ class C14(PropCheck):
             addr, allow, relay = {}, {}, {}
             what, cur, got = None, None, {}
             airs = []
+            rid_of, last_radios = {}, None
 
             def settle():
                 if cur is None:
@@ -126,8 +140,25 @@ class C14(PropCheck):
                 res = f[0].split(" all=")[0]
                 if t[0] == "new":
                     addr[t[1]] = int(t[4])
+                    rid_of[t[1]] = int(t[3])
                     allow[t[1]], relay[t[1]] = True, False
+                    if len(f) == 4:
+                        last_radios = f[2]
                     continue
+                if t[1] == "multicast" and last_radios is not None:
+                    # "unacknowledged": when the multicast goes out, no listening node has auto-ack enabled on pipe 0,
+                    # the pipe that carries the level address (it would answer the frame with a radio ACK)
+                    rs = [dict(tok.split("=", 1) for tok in r.split(" ") if "=" in tok) for r in last_radios.split(" || ")]
+                    for n2, a2 in addr.items():
+                        r2 = rs[rid_of[n2]] if rid_of[n2] < len(rs) else None
+                        if n2 != t[0] and r2 and "aa" in r2 and int(r2["aa"]) & 1 and int(r2["cfg"]) & 3 == 3 and r2["ce"] == "1":
+                            what = (f"op {k}: when {t[0]} multicasts, node {n2} ({oct(a2)}) listens with auto-ack enabled on pipe 0 "
+                                    f"(EN_AA={r2['aa']}): it acknowledges multicast frames")
+                            break
+                    if what:
+                        break
+                if len(f) == 4:
+                    last_radios = f[2]
                 if t[1] == "set" and t[2] == "allow_multicast":
                     allow[t[0]] = t[3] == "T"
                 if t[1] == "set" and t[2] == "multicast_relay":
@@ -142,6 +173,12 @@ class C14(PropCheck):
                                 what = f"op {k}: a multicast frame was transmitted {tail.split(':')[0]} times (radio acknowledgement requested)"
                 if what:
                     break
+                if t[1] == "write":
+                    # unicast traffic between two multicasts: the reads that follow belong to no multicast
+                    what = settle()
+                    if what:
+                        break
+                    cur, got = None, {}
                 if t[1] == "multicast":
                     what = settle()
                     if what:
